@@ -54,9 +54,9 @@ def parse_term(toks, i=0):
     if t in ("s", "y", "k"):
         h = toks[i + 1]
         return (t, b"" if h == "-" else bytes.fromhex(h)), i + 2
-    if t in ("r", "a"):
-        if t == "a":
-            return ("a", int(toks[i + 1], 16)), i + 2
+    if t == "a":
+        return ("a", bytes.fromhex(toks[i + 1]).decode(errors="replace"), int(toks[i + 2], 16)), i + 3
+    if t == "r":
         return ("r", int(toks[i + 1]), int(toks[i + 2], 16)), i + 3
     if t == "T":
         br, n = toks[i + 1] == "1", int(toks[i + 2])
@@ -149,8 +149,14 @@ def describe(x, depth=0):
         return "'" + x[1].decode(errors="replace")
     if k == "k":
         return ":" + x[1].decode(errors="replace")
-    if k in ("r", "a"):
-        return "<%s %d>" % ("ref", x[1]) if k == "r" else "<abstract>"
+    if k == "r":
+        return "<ref %d>" % x[1]
+    if k == "a":
+        if x[1] == "core/s64":
+            return "<s64 %d>" % (x[2] - 2**64 if x[2] >= 2**63 else x[2])
+        if x[1] == "core/u64":
+            return "<u64 %d>" % x[2]
+        return "<%s>" % x[1]
     if k == "T":
         inner = " ".join(describe(y, depth + 1) for y in x[2])
         return ("[%s]" if x[1] else "(%s)") % inner
@@ -213,6 +219,16 @@ def run(ctx, scripts=None):
     except BuildError as e:
         ctx.violation("build-failed", {"kind": "build", "error": str(e)}, found=False, what="tree does not build")
         return ctx.finish("proof", {"evaluations": 0, "distinct_nontrivial": 0})
+    hooked = []
+    try:
+        hooked = gen_value.abstract_hooks(ctx.build.tree)
+        uncovered = [h for h in hooked if h[1] not in ("core/s64", "core/u64")]
+        if uncovered:
+            broken.append("abstract types with compare/hash hooks not covered by the pool: %r" % uncovered)
+            ctx.broken.append(broken[-1])
+    except Exception as e:  # shape of an initialiser not understood: a broken tie, not a crash of the check
+        broken.append("translator abstract_hooks: %s" % e)
+        ctx.broken.append(broken[-1])
     # ------------------------------------------------------------------ (B,C) kernel check + audit
     broken += ctx.obligations("JanetModel.Props.C03", THEOREMS)
     if not quick:
@@ -354,6 +370,18 @@ def run(ctx, scripts=None):
                     ctx.violation("content:same-content-different-hash", {"kind": "hash", "pool": name, "values": [info(i), info(j)],
                                                                           "script": mini_script(prelude, [labels[i][1], labels[j][1]]) if prelude is not None else script},
                                   what="same content, different hash: %s (%s) vs %s (%s)" % (labels[i][1][:100], pr.meta[i]["hash"], labels[j][1][:100], pr.meta[j]["hash"]))
+                # boxed integers of the same type: the compare hook must be the integer order
+                if terms[i][0] == "a" and terms[j][0] == "a" and terms[i][1] == terms[j][1] and terms[i][1] in ("core/s64", "core/u64") \
+                        and "intorder" not in reported:
+                    sgn = terms[i][1] == "core/s64"
+                    a, b = [(v - 2**64 if (sgn and v >= 2**63) else v) for v in (terms[i][2], terms[j][2])]
+                    wantc = "<" if a < b else (">" if a > b else "=")
+                    if row[j] != wantc:
+                        reported.add("intorder")
+                        direct.append("intorder")
+                        ctx.violation("content:abstract-integer-order", {"kind": "abstract-order", "pool": name, "values": [info(i), info(j)], "expected": wantc, "impl": row[j],
+                                                                         "script": mini_script(prelude, [labels[i][1], labels[j][1]]) if prelude is not None else script},
+                                      what="compare of %s and %s gives %s, integer order says %s: (cmp %s %s)" % (describe(terms[i]), describe(terms[j]), row[j], wantc, labels[i][1], labels[j][1]))
                 # numbers: compare is IEEE order
                 if terms[i][0] == "n" and terms[j][0] == "n" and "numorder" not in reported:
                     a, b = fl(terms[i][1]), fl(terms[j][1])
@@ -546,6 +574,7 @@ def run(ctx, scripts=None):
         "samples": samples[:8],
         "pools": [p[0] for p in pools], "values": tot["values"], "pairs": tot["pairs"], "triples": tot["triples"], "vm_operator_calls": tot["vmcalls"],
         "vm_literal_shape_forms": tot["litforms"], "vm_literals": pg.LITERALS,
+        "abstract_types_with_compare_or_hash_hooks": [list(h) for h in hooked],
         "content_classes": tot["classes"], "content_classes_with_several_constructions": tot["multi_classes"],
         "model_lines": tot["model_lines"], "model_diffs": tot["model_diffs"], "struct_layout_rebuilds": tot["layouts"],
         "symbols_checked_for_identity": tot["symbols"], "symcache": sym_summary,
